@@ -317,10 +317,15 @@ class Gen:
         """-> lex, [trees]; every statement is followed by `;`"""
         n = self.rng.randint(1, 3) if n is None else n
         lex, trees = [], []
+        if self.rng.random() < 0.06:
+            # an empty statement (a lone `;`) may stand anywhere in a statement list; it leaves no trace in the tree
+            self.features.add('stmt:empty-first'); lex += [('p', ';'), NL]
         for i in range(n):
             slex, st = self.statement(depth)
             lex += slex + [G, ('p', ';'), NL]
             trees.append(st)
+            if self.rng.random() < 0.08:
+                self.features.add('stmt:empty'); lex += [('p', ';'), G0] * self.rng.choice([1, 1, 2]) + [NL]
         return lex, trees
 
     def statement(self, depth):
